@@ -183,7 +183,7 @@ def main():
     nlp = 80 if ck.thorough() else 30
     scale = 4 if ck.thorough() else 3
     chain_len = 4 if ck.thorough() else 3
-    lps = big_stream(ck.rng, nlp, scale) + family_stream(ck.rng, 30 if ck.thorough() else 12)
+    lps = big_stream(ck.rng, nlp, scale) + family_stream(ck.rng, 30 if ck.thorough() else 12) + [boxed_ranged(ck.rng, name="bx%d" % i) for i in range(80 if ck.thorough() else 24)]
     rcc, out0, _ = run_harness("h_solve", "CASE 0\n"), None, None
     M = rcc[1].split()[1]
     chains = {}
@@ -194,6 +194,10 @@ def main():
         jobs = {}
         for k, lp in cur.items():
             a = pick_xform(ck.rng, lp)
+            if step == 0 and lp.get("name", "").startswith("bx") and any(c[2] == NINF for c in lp["cols"]):
+                # the columns without lower bound are replaced by their negatives first (x_j = -x'_j): what entered the basis decreasing
+                # now enters increasing, through the other branches of the ratio tests
+                a = ["subst"] + [w for c in lp["cols"] for w in ((qs(F(-1)), qs(F(0))) if c[2] == NINF else (qs(F(1)), qs(F(0))))]
             if a:
                 jobs[k] = (a, lp)
         res = run_xforms(M, jobs)
